@@ -217,30 +217,45 @@ def tour(nodes, edges, init, maxlen):
 
 
 def write_paths(out_path, hcfg, nodes, edges, paths, sites, meta):
-    cache = {}
+    """Compact format: header, label table, node table (projected states), then paths as
+    [label index, node index] pairs."""
+    node_ix = {}
+    node_lines = []
 
-    def proj(nid):
-        r = cache.get(nid)
-        if r is None:
-            r = project(state_to_json(nodes[nid]), sites)
-            cache[nid] = r
-        return r
+    def nix(nid):
+        i = node_ix.get(nid)
+        if i is None:
+            i = len(node_lines)
+            node_ix[nid] = i
+            node_lines.append(json.dumps({"n": i, "post": project(state_to_json(nodes[nid]), sites)},
+                                         separators=(',', ':')))
+        return i
 
-    lbl_cache = {}
+    lbl_ix = {}
+    labels = []
+
+    def lix(lbl):
+        i = lbl_ix.get(lbl)
+        if i is None:
+            i = len(labels)
+            lbl_ix[lbl] = i
+            n, t, x = parse_label(lbl)
+            labels.append({"a": n, "t": t, "x": x})
+        return i
+
     nsteps = 0
+    plines = []
+    for pid, p in enumerate(paths):
+        es = [[lix(edges[ei][2]), nix(edges[ei][1])] for ei in p]
+        nsteps += len(es)
+        plines.append(json.dumps({"id": pid, "e": es}, separators=(',', ':')))
     with open(out_path, 'w') as f:
-        f.write(json.dumps({"cfg": hcfg, "meta": meta}) + "\n")
-        for pid, p in enumerate(paths):
-            steps = []
-            for ei in p:
-                s, d, lbl = edges[ei]
-                pl = lbl_cache.get(lbl)
-                if pl is None:
-                    pl = parse_label(lbl)
-                    lbl_cache[lbl] = pl
-                steps.append({"a": pl[0], "t": pl[1], "x": pl[2], "post": proj(d)})
-            nsteps += len(steps)
-            f.write(json.dumps({"id": pid, "steps": steps}, separators=(',', ':')) + "\n")
+        f.write(json.dumps({"cfg": hcfg, "meta": meta, "format": 2}) + "\n")
+        f.write(json.dumps({"labels": labels}, separators=(',', ':')) + "\n")
+        for l in node_lines:
+            f.write(l + "\n")
+        for l in plines:
+            f.write(l + "\n")
     return nsteps
 
 
